@@ -1,4 +1,5 @@
-\* quick: ten groups, primitive quaternions in -2..2 (272 rational rotations per cell), hkl box -1..1
+\* quick: ten groups, primitive quaternions in -2..2 (272 rational rotations per cell), hkl box -1..1 and
+\* eight hkl with entries up to 499 (the harness adds seeded ones; {1000+h, 11000+k, 21000+l} stands for (h,k,l))
 SPECIFICATION Spec
 CONSTANTS
   Names = {"cubic", "hexagonal", "trigonal", "rhombohedralP", "tetragonal", "orthorhombic", "monoclinic_c", "monoclinic_a", "monoclinic_b", "triclinic"}
@@ -7,6 +8,11 @@ CONSTANTS
   MaxCalls = 1
   DoScan = TRUE
   TrigonalFixed = TRUE
+  BigHkls = {{1499, 10501, 21499}, {501, 10501, 20501}, {1001, 11400, 20600}, {1000, 11499, 20502}, {999, 10700, 21499}, {1017, 10983, 21499}, {1250, 10750, 21251}, {1499, 11499, 21498}}
+  ConcPairs = {}
+  CoarseNames = {}
+  Stride = 1
+  PublishEarly = FALSE
 INVARIANT TypeOK
 INVARIANT GenOK
 INVARIANT Closed
@@ -28,6 +34,7 @@ INVARIANT TieDependence
 INVARIANT MetricKept
 INVARIANT SameLattice
 INVARIANT HklCanonical
+INVARIANT HklLexMax
 INVARIANT HklNormKept
 INVARIANT Emit
 CHECK_DEADLOCK FALSE
